@@ -25,6 +25,7 @@ def record_one(arg):
     try:
         sc = qscen.build(seed, family)
         rec = Recorder(sc.mc, sc.fresh, meta=sc.meta, on_yield=sc.controller)
+        rec.veto_active = sc.veto_active
         tr = rec.run(sc.steps)
         try:
             sc.mc.close()
